@@ -63,6 +63,13 @@ theorem update_precheck_within_loop_tbl :
       Generated.tables.updaters.contains k || Generated.tables.updateInline.contains k) = true := by
   decide +kernel
 
+/-- … and the pre-check of the accumulators (`_validate_accumulators`) only what
+    `_accumulate_group` has a branch for -/
+theorem accumulator_precheck_within_loop_tbl :
+    Generated.tables.groupChecked.all (fun k =>
+      Generated.tables.groupingMap.contains k || Generated.tables.groupInline.contains k) = true := by
+  decide +kernel
+
 theorem logical_const_is_not_tbl :
     Generated.tables.logicalConst.all (fun k => k == cNot) = true := by
   decide +kernel
@@ -72,11 +79,16 @@ theorem logical_const_is_not_tbl :
 theorem generated_dispatch_ignores_only_ne_nin (pos : Position) (k : Code)
     (h : dispatch Generated.tables pos k = .ignored) :
     pos = .queryFieldDeadEnd ∧ (k = cNe ∨ k = cNin) := by
-  rcases ignored_only_structurally Generated.tables pos k h with h1 | h1 | h1
+  rcases ignored_only_structurally Generated.tables pos k h with h1 | h1 | h1 | h1
   · have := List.all_eq_true.mp logical_const_is_not_tbl k h1.1
     exact absurd (by simpa using this) h1.2.2.1
   · exact h1
   · have := List.all_eq_true.mp update_precheck_within_loop_tbl k h1.2.1
+    simp only [Bool.or_eq_true, List.contains_eq_mem, decide_eq_true_eq] at this
+    rcases this with h2 | h2
+    · exact absurd h2 h1.2.2.1
+    · exact absurd h2 h1.2.2.2
+  · have := List.all_eq_true.mp accumulator_precheck_within_loop_tbl k h1.2.1
     simp only [Bool.or_eq_true, List.contains_eq_mem, decide_eq_true_eq] at this
     rcases this with h2 | h2
     · exact absurd h2 h1.2.2.1
@@ -106,6 +118,39 @@ theorem site_rows_known_chunks :
 theorem site_rows_known :
     Generated.siteRows.all (SiteRow.ignoredKnown Generated.knownIgnoredSitePairs) = true :=
   chunks_all _ _ site_rows_known_chunks
+
+/-- every refusal at a site was tried again on an empty collection, and the refusals that are
+    not repeated there are at the listed sites (`lazy-empty:<site>`) -/
+theorem site_rows_empty_chunks :
+    Generated.siteRowChunks.all (fun c => c.all
+      (SiteRow.emptyKnown Generated.knownLazyEmptySites)) = true := by
+  decide +kernel
+
+theorem site_rows_empty :
+    Generated.siteRows.all (SiteRow.emptyKnown Generated.knownLazyEmptySites) = true :=
+  chunks_all _ _ site_rows_empty_chunks
+
+/-- the family of the helper that site `i` hands its names to -/
+def siteFamily (i : Nat) : Option Family := (Generated.sites[i]?).map (·.family)
+
+/-- the listed sites are expression parts of stages, or a filter (`restrictSearchWithMatch`):
+    no accumulator-name site, no sub-pipeline -/
+theorem lazy_empty_families_tbl :
+    Generated.knownLazyEmptySites.all (fun i =>
+      siteFamily i == some .expr || siteFamily i == some .query) = true := by
+  decide +kernel
+
+/-- the full statement fails on the table: some refusal is not repeated on an empty collection -/
+theorem some_site_silent_on_empty :
+    Generated.siteVocab.any (fun e => e.disp.raises && decide (e.onEmpty = .silent)) = true := by
+  decide +kernel
+
+/-- non-vacuity of the accumulator part: refusals at accumulator-name sites, repeated on an empty
+    collection -/
+theorem some_accumulator_refused_on_empty :
+    Generated.siteVocab.any (fun e => siteFamily e.site == some .accumulator && e.disp.raises &&
+      decide (e.onEmpty = .raises)) = true := by
+  decide +kernel
 
 /-- every call of a dispatch helper in the source is reached by a probed site, and every site
     was probed with names the dispatcher refuses -/
